@@ -408,6 +408,9 @@ var _ = wire.RegisterInterface(
 
 // TODO: ensure that bz is completely read.
 func DecodeMessage(bz []byte) (msgType byte, msg BlockchainMessage, err error) {
+	if len(bz) == 0 {
+		return 0, nil, fmt.Errorf("DecodeMessage: empty message")
+	}
 	msgType = bz[0]
 	n := int(0)
 	r := bytes.NewReader(bz)
